@@ -11,7 +11,7 @@ PredSet(name) ==
     CASE name = "p2a" -> {P(<<1, 0>>, 0), P(<<0, 1>>, 1), P(<<1, 1>>, 1)}
       [] name = "p2b" -> {P(<<1, 0>>, 0), P(<<0, 1>>, 1), P(<<1, 1>>, 1), P(<<1, -1>>, 0), P(<<-1, 0>>, 0)}
       [] name = "p2s" -> {P(<<1, 0>>, 0), P(<<1, 1>>, 1)}
-      [] name = "p1x" -> {P(<<1>>, -1), P(<<1>>, 0), P(<<1>>, 1), P(<<-1>>, 0), P(<<-1>>, -1), P(<<0>>, 0), P(<<0>>, -1)}
+      [] name = "p1x" -> {P(<<1>>, -1), P(<<1>>, 0), P(<<1>>, 1), P(<<-1>>, 0), P(<<-1>>, -1), P(<<0>>, 0), P(<<0>>, -1), P(<<2>>, 3), P(<<-2>>, -1)}   \* the last two: rows of another norm
       [] name = "p1y" -> {P(<<1>>, 0), P(<<1>>, 1), P(<<-1>>, 0), P(<<-1>>, -1)}
       [] name = "p2x" -> {P(<<1, 0>>, 0), P(<<-1, 0>>, 0), P(<<0, 1>>, 0), P(<<1, 1>>, 1), P(<<-1, -1>>, -2), P(<<1, 0>>, -1)}
       [] name = "p2one" -> {P(<<1, 1>>, 1)}
@@ -33,6 +33,7 @@ TermSet(name) ==
       [] name = "t33s" -> {Aff(<<<<0, 1, 0>>, <<1, 0, 1>>, <<0, 0, 2>>>>, <<1, 0, -1>>)}
       [] name = "t23s" -> {Aff(<<<<1, 0, 1>>, <<0, 2, -1>>>>, <<0, 1>>), Aff(<<<<0, 1, 0>>, <<1, 0, 0>>>>, <<2, 0>>)}     \* R^3 -> R^2
       [] name = "t22x" -> {Aff(<<<<1, 0>>, <<0, 1>>>>, <<0, 0>>), Aff(<<<<0, 1>>, <<1, 0>>>>, <<0, 0>>), Aff(<<<<0, 0>>, <<0, 0>>>>, <<1, 0>>), Aff(<<<<0, 0>>, <<0, 0>>>>, <<0, 1>>)}   \* pairs whose coefficient differences cancel in sum
+      [] name = "t22r" -> {Aff(<<<<1, 0>>, <<1, 0>>>>, <<0, 0>>), Aff(<<<<1, 0>>, <<2, 0>>>>, <<-1, -2>>)}      \* components that coincide / are proportional
       [] name = "t22s" -> {Aff(<<<<0, 1>>, <<1, 0>>>>, <<1, 0>>)}
       [] name = "tp2one" -> {Aff(<<<<1, 1>>>>, <<1>>), Aff(<<<<0, 1>>>>, <<0>>)}     \* the first one coincides with the predicate of p2one
       [] name = "tp2s" -> PredSet("p2s") \cup {Aff(<<<<0, 1>>>>, <<0>>)}          \* terminals R^2 -> R^1 that coincide with predicates of p2s
